@@ -106,10 +106,19 @@ def h_pexpr(c):
     if c.get("inf_norm"):
         r["inf_norm"] = enc(p.inf_norm)
     if c.get("round_zeros") is not None:
-        from pyqsp.LPoly import LPoly
-        q = LPoly(numpy.array(p.coefs, dtype=float), p.dmin)
-        q.round_zeros(dec(c["round_zeros"]))
-        r["rounded"] = enc(numpy.array(q.coefs))
+        # on the result object itself, after its norm, values and sup norm have been read (stale caches would show)
+        th = dec(c["round_zeros"])
+        before = numpy.array(p.coefs, copy=True)
+        _ = p.norm
+        if th == "default":
+            p.round_zeros()
+        else:
+            p.round_zeros(th)
+        r["rounded_from"] = enc(before)
+        r["rounded"] = enc(numpy.array(p.coefs))
+        r["rounded_norm"] = enc(p.norm)
+        r["rounded_eval0"] = enc(numpy.asarray(p.eval(numpy.array([0.0, 0.7])), dtype=complex))
+        r["rounded_dmin"] = int(p.dmin)
     return r
 
 
